@@ -5,7 +5,7 @@ this process, what the library API reports for the vector in play (python 2.7 / 
 argv[1] = job file {"out": path, "items": [{"args": [...], "stdin": [answers...]}]}"""
 from __future__ import print_function, unicode_literals
 import sys, json, io, os, subprocess
-from obs import esc, unesc, observe, jsonval
+from obs import esc, unesc, observe, jsonval, hb_iter
 from interactive import session
 
 CLS = None
@@ -35,7 +35,7 @@ def main():
     job = json.load(io.open(sys.argv[1], encoding="utf-8"))
     res = []
     env0 = dict(os.environ)
-    for it in job["items"]:
+    for it in hb_iter(job["items"]):
         env = dict(env0)
         env.update(it.get("env", {}))
         args = [unesc(a) for a in it["args"]]
